@@ -299,6 +299,7 @@ static void run_threads_body(const Plan &p, World &w, Ctx &x, RunOut &out, bool 
                     sim_op_end();
                 } catch (Abort &) { stop = true; h.res = sim_event(); break; }
                 if (w.is_mutation(op) && !h.got.fail) me.mutations++;
+                me.st.add("ops");
                 h.res = sim_event();
                 sim_yield(Y_OP);
             }
@@ -313,6 +314,9 @@ static void run_threads_body(const Plan &p, World &w, Ctx &x, RunOut &out, bool 
     x.st.add("sched.decisions", so.ndecisions); x.st.add("sched.switches", so.switches); x.st.add("sched.blocked_on_lock", so.blocked);
     x.st.add("sched.forced_unlock", so.forced_unlock); x.st.add("fault.stall.fired", so.stalls); x.st.add("sim_us", so.sim_us);
     if (p.cfg.get("stall", 0) > 0) x.st.add("fault.stall.planned");
+    if (so.blocked) x.st.add("probe.waiter_blocked_on_held_lock", so.blocked);
+    if (so.forced_unlock) x.st.add("probe.forced_unlock_path_executed", so.forced_unlock);
+    if (so.switches) x.st.add("probe.context_switches_between_clients", so.switches);
     for (size_t c = 0; c < nc; c++) { x.st.merge(cx[c].st); x.mutations += cx[c].mutations; }
     // trace = schedule-sensitive: results in event order
     for (size_t c = 0; c < nc; c++) for (auto &h : rec[c]) if (h.res) hist.push_back(h);
